@@ -49,14 +49,19 @@ def expected(nrows, targets, order, distinct, limit):
 def build(case):
     nrows, targets, order, style, distinct, limit = case
     tt = []
+    # style 'shadow': every output is named after a table column that holds something else; an ORDER BY name then denotes
+    # the selected output of that name, not the table column
+    shadow = {t: [c for c in NAMES if c != t and c not in targets][j % 2] for j, t in enumerate(targets)} if style == 'shadow' else {}
     for j, t in enumerate(targets):
-        tt.append(f'{t} AS t{j}' if style == 'name' else t)
+        tt.append(f'{t} AS t{j}' if style == 'name' else (f'{t} AS {shadow[t]}' if style == 'shadow' else t))
     keys = []
     for k, desc in order:
         if style == 'position' and k in targets:
             ks = str(targets.index(k) + 1)
         elif style == 'name' and k in targets:
             ks = f't{targets.index(k)}'
+        elif style == 'shadow' and k in targets:
+            ks = shadow[k]
         else:
             ks = k
         keys.append(ks + (' DESC' if desc else (' ASC' if desc is False and len(k) % 2 else '')))
@@ -122,11 +127,19 @@ def cases(tier, seed):
         order = [(rng.choice(keynames), rng.random() < 0.5) for _ in range(nk)]
         out.append((rng.choice([0, 1, 2, 5, len(ROWS)]), targets, order, rng.choice(['expr', 'position', 'name']),
                     rng.random() < 0.5, rng.choice([None, 0, 1, 3, 100])))
-    # DISTINCT/LIMIT without ORDER BY
+    # DISTINCT/LIMIT without ORDER BY: every cut position (duplicates before and after the cut)
     for targets in (['a'], ['b'], ['a', 'b'], ['c']):
-        for lim in (None, 0, 2, 50):
+        for lim in [None] + list(range(0, len(ROWS) + 2)) + [50]:
             out.append((len(ROWS), targets, [], 'expr', True, lim))
             out.append((len(ROWS), targets, [], 'expr', False, lim))
+    # ORDER BY the name of an output that shadows a table column holding something else (the key is the output)
+    for targets in (['-n', 'b'], ['a + 1'], ['c', 'a'], ['coalesce(a, 0)', 'length(b)']):
+        ok = [t for t in targets]
+        for nk in (1, 2):
+            for ks in itertools.permutations(ok, min(nk, len(ok))):
+                for dirs in itertools.product([False, True], repeat=len(ks)):
+                    if len({[c for c in NAMES if c != t and c not in targets][j % 2] for j, t in enumerate(targets)}) == len(targets):
+                        out.append((len(ROWS), targets, list(zip(ks, dirs)), 'shadow', False, None))
     return out
 
 
